@@ -14,7 +14,7 @@ ASSUMPTIONS = [
     'partial correctness: termination of the three nested loops not proved',
     'A7: uniformity in the declaration shape; numbers of recurrence/persistence predicates enumerated ({1,2}^2 quick, {1,2,3}^2 thorough)',
     'callees by contract: fixpoint.step (exact CPre, C11), fixpoint.trap (greatest fixpoint, C11), _attractor_under_assumptions (least fixpoint of G)',
-    'the recorded iterate lists yij / xijk are not constrained by this check (they matter to C02)',
+    'recorded iterate lists yij / xijk: structure and the facts of the last adjacent pair are proved as loop invariants (append-only lists: every adjacent pair by induction on the length, a meta-step); C02 relies on them',
 ]
 EXPLANATION = (
     'solve_streett_game and _attractor_under_assumptions are re-extracted from source with their while-loops cut at inductive '
